@@ -223,10 +223,9 @@ impl FileTree {
         {
             let entry = entry.map_err(|e| read_error(path, e))?;
             let path = entry.path();
-            let file_type =
-                entry.file_type().map_err(|e| read_error(&path, e))?;
-
-            if file_type.is_dir() {
+            // `Path::is_dir` follows symbolic links (`DirEntry::file_type`
+            // does not): a linked module directory is a module directory
+            if path.is_dir() {
                 self.process_subdir(parent_id, &path)?;
                 continue;
             }
